@@ -349,25 +349,12 @@ def f(x: Float[np.ndarray, "a"], y: Float[np.ndarray, "a"]):
     return (isinstance(x, Float[np.ndarray, "a"]), isinstance(y, Float[np.ndarray, "a"]))
 '''
 
-# Definitions whose def / class STATEMENTS are executed when a function is CALLED (that is, at any
-# later point of the history), at nesting depths 2..4: a class in a function body (`build`), a
-# method of that local class and a def inside that method (`deep`, only reached by a well-typed
-# call).  Together with `make` (a def in a function body) this covers both kinds of statement
-# that carry an injected decorator - def (innermost decorator) and class (outermost) - below a
-# function scope.  Each factory returns a two-array callable, so the same tag probe applies.
-NESTED_SRC = '''
-
-def build():
-    class Local:
-        def call(self, x: Float[np.ndarray, "a"], y: Float[np.ndarray, "a"]):
-            def deep(x: Float[np.ndarray, "a"], y: Float[np.ndarray, "a"]):
-                return (isinstance(x, Float[np.ndarray, "a"]), isinstance(y, Float[np.ndarray, "a"]))
-
-            return deep(x, y)
-
-    return Local().call
-'''
-
+# `make` holds the definitions whose def / class STATEMENTS are executed when a function is CALLED
+# (that is, at any later point of the history): make() -> a def in a function body, make(True) ->
+# a class in a function body and its method.  These are the two kinds of statement that carry an
+# injected decorator - def (innermost decorator) and class (outermost) - below a function scope
+# (deeper shapes are C10's lifecycle route; every extra def costs every hooked import of the
+# search one more decorator parse).  Each returns a two-array callable, so the same tag probe applies.
 FOREST_SRC = (
     '''import dataclasses
 import numpy as np
@@ -377,7 +364,14 @@ from jaxtyping import Float
     + FUNC_SRC
     + '''
 
-def make():
+def make(local_class=False):
+    if local_class:
+        class Local:
+            def call(self, x: Float[np.ndarray, "a"], y: Float[np.ndarray, "a"]):
+                return (isinstance(x, Float[np.ndarray, "a"]), isinstance(y, Float[np.ndarray, "a"]))
+
+        return Local().call
+
     def inner(x: Float[np.ndarray, "a"], y: Float[np.ndarray, "a"]):
         return (isinstance(x, Float[np.ndarray, "a"]), isinstance(y, Float[np.ndarray, "a"]))
 
@@ -389,7 +383,6 @@ class D:
     x: Float[np.ndarray, "a"]
     y: Float[np.ndarray, "a"]
 '''
-    + NESTED_SRC
 )
 
 # ------------------------------------------------------------------ C11: the forest
@@ -644,7 +637,7 @@ class ForestWorld:
                 out.append("+".join(r["names"]) + "=" + (r["ck"] or "n") + "!absent")
         return ",".join(out)
 
-    def observe(self, new=(), make_all=False, strict=False, build_new=True, build_all=True):
+    def observe(self, new=(), make_all=False, strict=False, build_new=True, build_all=True, nested_illtyped=None):
         """-> (key, tags, extra): tags[m] = tag of m.f for every loaded module.
         Newly loaded modules get the full battery: ill-typed call into f and into
         the dataclass D (must raise iff instrumented with a real checker), and a
@@ -653,13 +646,16 @@ class ForestWorld:
         for spy-less modules the ill-typed call (plain vs jaxtyped-only); with
         strict=True they too get the raising ill-typed call.  make_all adds the
         probes of the definitions made at CALL time - make() (a def in a function
-        body) and build() (a class in a function body, its method, a def inside
-        that method), each called well-typed and - the spy-less ones, and with
-        strict=True make()'s def under a spy as well (both factories reject an
-        ill-typed call at their first checked def) - ill-typed, for every module;
-        build_new=False leaves build() out for the newly loaded ones, build_all=False
+        body) and, under the name "build", make(True) (a class in a function body
+        and its method), each called well-typed and - the spy-less ones, and with
+        nested_illtyped (default: strict) make()'s def under a spy as well (both
+        factories reject an ill-typed call at their first checked def) - ill-typed,
+        for every module;
+        build_new=False leaves "build" out for the newly loaded ones, build_all=False
         for the others (make() is always probed when make_all is set)."""
         tags, extra = {}, {}
+        if nested_illtyped is None:
+            nested_illtyped = strict
         for m in self.loaded():
             mod = sys.modules[m]
             try:
@@ -667,13 +663,13 @@ class ForestWorld:
                     tags[m] = probe_callable(mod.f)
                     extra[m] = dict(D=probe_callable(mod.D), make=probe_factory(mod.make))
                     if build_new:
-                        extra[m]["build"] = probe_factory(mod.build)
+                        extra[m]["build"] = probe_factory(lambda: mod.make(True))
                 else:
                     tags[m] = probe_callable(mod.f, well_typed_first=not strict)
                     if make_all:
-                        extra[m] = dict(make=probe_factory(mod.make, strict))
+                        extra[m] = dict(make=probe_factory(mod.make, nested_illtyped))
                         if build_all:
-                            extra[m]["build"] = probe_factory(mod.build)
+                            extra[m]["build"] = probe_factory(lambda: mod.make(True))
             except Exception as e:  # noqa: BLE001
                 tags[m] = f"probe-exc:{type(e).__name__}"
         key = self.hooks_key() + "|" + ";".join(f"{m}:{tags[m]}" for m in C11_MODULES if m in tags)
